@@ -139,29 +139,38 @@ Parsed try_parse(const std::string& t, bool strict) {
   return p;
 }
 
-// Names the kind of the smallest sub-value whose own serialisation (same options, same mode) is rejected, so that
-// finding keys separate defects by cause ("float" vs "empty-list") rather than by whatever else the tree contains.
-// Only evaluated on the failure path.
-std::string blame(const Val& v, uint32_t o, bool strict) {
-  auto rejected = [&](const Val& c) {
-    try {
-      return !try_parse(build(c).serialize(o), strict).ok;
-    } catch (...) {
-      return true;
-    }
-  };
-  for (auto& c : v.items) if (rejected(c)) return blame(c, o, strict);
-  for (auto& m : v.members) if (rejected(m.second)) return blame(m.second, o, strict);
-  switch (v.k) {
-    case Val::NUL: return "null";
-    case Val::BOOL: return "bool";
-    case Val::INT: return "int";
-    case Val::FLT: return float_exp_form(v.d) ? "float-in-exponent-form" : "float";
-    case Val::STR: return "string";
-    case Val::LIST: return v.items.empty() ? "empty-list" : "list";
-    case Val::DICT: return v.members.empty() ? "empty-dict" : "dict";
+// Names the kind of the first atom / empty container whose own serialisation (same options, same mode) is rejected,
+// so that finding keys separate defects by cause ("float-in-exponent-form" vs "empty-list") rather than by whatever
+// else the tree contains; if every leaf is fine on its own the container kind is named.  Failure path only; O(nodes).
+bool bad_leaf(const Val& v, uint32_t o, bool strict, std::string& tag) {
+  bool leaf = (v.k != Val::LIST && v.k != Val::DICT) || (v.items.empty() && v.members.empty());
+  if (!leaf) {
+    for (auto& c : v.items) if (bad_leaf(c, o, strict, tag)) return true;
+    for (auto& m : v.members) if (bad_leaf(m.second, o, strict, tag)) return true;
+    return false;
   }
-  return "value";
+  bool rejected;
+  try {
+    rejected = !try_parse(build(v).serialize(o), strict).ok;
+  } catch (...) {
+    rejected = true;
+  }
+  if (!rejected) return false;
+  switch (v.k) {
+    case Val::NUL: tag = "null"; break;
+    case Val::BOOL: tag = "bool"; break;
+    case Val::INT: tag = "int"; break;
+    case Val::FLT: tag = float_exp_form(v.d) ? "float-in-exponent-form" : "float"; break;
+    case Val::STR: tag = "string"; break;
+    case Val::LIST: tag = "empty-list"; break;
+    case Val::DICT: tag = "empty-dict"; break;
+  }
+  return true;
+}
+std::string blame(const Val& v, uint32_t o, bool strict) {
+  std::string tag;
+  if (bad_leaf(v, o, strict, tag)) return tag;
+  return v.k == Val::LIST ? "list" : v.k == Val::DICT ? "dict" : "value";
 }
 
 // mutate every node of x (strings grow, containers gain a member after their children were mutated, primitives
